@@ -82,24 +82,6 @@ def analyze(module: str, func: str, timeout: float) -> dict:
 	fn = getattr(mod, func)
 	out: dict = {'module': module, 'func': func, 'case': prelude.CASE, 'timeout_s': timeout}
 
-	# reachability twin first (cheap: stops at the first path that reaches the postcondition)
-	twin_state = 'skipped'
-	if os.environ.get('VERIF_TWIN', '1') == '1':
-		twin = _twin_module(mod, prelude.scratch())
-		saved = collections.Counter(prelude.COVER)
-		tmsgs, _, tcpu, MT = _analyze_fn(getattr(twin, func), min(timeout, 30.0))
-		twin_state = 'unreached'
-		for m in tmsgs:
-			if m.state == MT.POST_FAIL:
-				twin_state = 'reached'
-			elif m.state == MT.EXEC_ERR and twin_state != 'reached':
-				twin_state = 'raised'
-		out['twin_cpu_s'] = round(tcpu, 2)
-		# the twin imports the harness a second time under another name; its own prelude counters are shared
-		prelude.COVER.clear()
-		prelude.COVER.update(saved)
-	out['twin'] = twin_state
-
 	msgs, stats, cpu, MT = _analyze_fn(fn, timeout)
 	out['paths'] = int(stats.get('num_paths', 0))
 	out['cpu_s'] = round(cpu, 2)
@@ -130,6 +112,26 @@ def analyze(module: str, func: str, timeout: float) -> dict:
 	if not msgs:
 		state = 'error'
 		detail = 'no conditions found'
+	# reachability twin (cheap: stops at the first path that reaches the postcondition). It runs AFTER the main analysis:
+	# the twin is a second import of the harness module and would otherwise re-apply the harness's environment stubs
+	# (monkeypatched module attributes) with its own copies while the main analysis is still to run
+	twin_state = 'skipped'
+	if os.environ.get('VERIF_TWIN', '1') == '1':
+		twin = _twin_module(mod, prelude.scratch())
+		saved = collections.Counter(prelude.COVER)
+		tmsgs, _, tcpu, _MT2 = _analyze_fn(getattr(twin, func), min(timeout, 30.0))
+		twin_state = 'unreached'
+		for m in tmsgs:
+			if m.state == _MT2.POST_FAIL:
+				twin_state = 'reached'
+			elif m.state == _MT2.EXEC_ERR and twin_state != 'reached':
+				twin_state = 'raised'
+		out['twin_cpu_s'] = round(tcpu, 2)
+		# the twin imports the harness a second time under another name; its own prelude counters are shared
+		prelude.COVER.clear()
+		prelude.COVER.update(saved)
+	out['twin'] = twin_state
+
 	out['state'] = state
 	out['detail'] = detail[:2000]
 	out['args'] = args
@@ -176,7 +178,9 @@ def main() -> None:
 			res = replay(sys.argv[2], sys.argv[3], json.loads(sys.argv[4]))
 		else:
 			raise SystemExit(f'unknown mode {mode}')
-	except Exception as e:  # noqa: BLE001
+	except BaseException as e:  # noqa: BLE001  (outermost frame only: CrossHairInternal and friends derive from BaseException)
+		if isinstance(e, (KeyboardInterrupt, SystemExit)):
+			raise
 		res = {'state': 'error', 'detail': f'{type(e).__name__}: {e}', 'traceback': traceback.format_exc()[-3000:]}
 	print('RESULT ' + json.dumps(res, default=repr))
 
